@@ -1,7 +1,6 @@
 package stackless
 
 import (
-	"errors"
 	"fmt"
 	"io"
 	"sync"
@@ -91,7 +90,10 @@ func (w *writer) Reset(dstW io.Writer) {
 func (w *writer) do(op op) error {
 	w.op = op
 	if !stacklessWriterFunc(w) {
-		return errHighLoad
+		// The stackless worker queue is full. Run the operation on the
+		// caller's stack: callers of Close and Reset cannot handle an error,
+		// so failing here would silently truncate the compressed stream.
+		writerFunc(w)
 	}
 	err := w.err
 	if err != nil {
@@ -104,8 +106,6 @@ func (w *writer) do(op op) error {
 
 	return err
 }
-
-var errHighLoad = errors.New("cannot compress data due to high load")
 
 var (
 	stacklessWriterFuncOnce sync.Once
